@@ -6,6 +6,7 @@ import core
 from props.parser_common import chunk_jobs
 
 THEOREMS_DEPEND_ON = []
+COMP_IOPORT = 102
 COMP_PORT, COMP_MULTI = 100, 101
 
 
@@ -261,8 +262,9 @@ def impl_multi(case):
     return out, fail, 'multi'
 
 
-def check_ioport(case):
-    """the IOPort wrapper over an input and an output device double (implementation against the statement; same case format as impl_port)"""
+def impl_ioport(case):
+    """the IOPort wrapper over an input device double (the script) and an output device double (autoreset, faults): same case format as
+    impl_port, plus 9 = io.input.close(), 10 = io.output.close(); compared step by step with Model/IOPortM.v (component 102) and with the statement"""
     import mido.ports as ports
     ar, echo, fuel, nf = case[:4]
     faults = case[4:4 + nf]
@@ -274,14 +276,15 @@ def check_ioport(case):
     port = ports.IOPort(inp, outp)
 
     def fake_sleep():
+        sti['sleeps'] += 1
         sti['per_call'] = sti.get('per_call', 0) + 1
         if sti['per_call'] >= fuel:
             raise Hang()
     saved = ports.sleep
     ports.sleep = fake_sleep
-    delivered, fail, i = [], None, 0
+    out, delivered, fail, i = [], [], None, 0
     try:
-        while i < len(ops) and fail is None:
+        while i < len(ops):
             k = ops[i]
             arg = ops[i + 1] if k in (0, 1, 4, 6) else None
             i += 2 if k in (0, 1, 4, 6) else 1
@@ -289,39 +292,51 @@ def check_ioport(case):
             closed_before = port.closed
             try:
                 if k == 0:
-                    port.send(mkmsg(arg))
-                    if closed_before:
+                    port.send(mkmsg(arg)); res = [0]
+                    if closed_before and fail is None:
                         fail = ('ioport-send-on-closed', 'send on a closed IOPort did not raise')
                 elif k in (1, 2):
                     m = port.receive(block=bool(arg)) if k == 1 else port.poll()
+                    res = [1, msgid(m)]
                     if m is not None:
                         delivered.append(msgid(m))
-                    elif inp._messages:
+                    elif inp._messages and fail is None:
                         fail = ('ioport-drain', 'a call returned nothing while %r was queued' % ([msgid(x) for x in inp._messages],))
                 elif k == 3:
+                    ms = []
                     for m in port.iter_pending():
-                        delivered.append(msgid(m))
+                        ms.append(msgid(m)); delivered.append(msgid(m))
+                    res = [2, len(ms)] + ms
                 elif k == 4:
+                    ms = []
                     for m in (itertools.islice(iter(port), arg) if arg >= 0 else iter(port)):
-                        delivered.append(msgid(m))
+                        ms.append(msgid(m)); delivered.append(msgid(m))
+                    res = [2, len(ms)] + ms
                 elif k == 5:
-                    port.close()
+                    port.close(); res = [0]
                 elif k == 6:
                     with port:
                         port.send(mkmsg(arg))
+                    res = [0]
                 elif k == 7:
-                    port.__del__()
+                    port.__del__(); res = [0]
+                elif k == 8:
+                    port.reset(); res = [0]
+                elif k == 9:
+                    inp.close(); res = [0]
                 else:
-                    port.reset()
+                    outp.close(); res = [0]
             except Hang:
-                if k in (2, 3) or (k == 1 and not arg):
+                res = [3, 13]
+                if (k in (2, 3) or (k == 1 and not arg)) and fail is None:
                     fail = ('ioport-nonblocking-hangs', 'a non-blocking call on the IOPort never returned')
             except Exception as e:  # noqa: BLE001
+                res = [3, core.exn_code(e)]
                 if k == 6 and not port.closed:
                     port.close()
                 legit = (k in (0, 6, 8) and ((closed_before and isinstance(e, ValueError)) or str(e) == 'device fault' or (outp.closed and isinstance(e, ValueError)))) \
                     or (k == 1 and arg and isinstance(e, (ValueError, OSError)) and inp.closed and not inp._messages)
-                if not legit:
+                if not legit and fail is None:
                     fail = ('ioport-raises:' + type(e).__name__, 'operation %d on the IOPort raised %r (closed before: %r)' % (k, e, closed_before))
             if fail is None and (sti['closes'] > 1 or sto['closes'] > 1):
                 fail = ('ioport-closed-twice', 'a device behind the IOPort was released more than once (%d, %d)' % (sti['closes'], sto['closes']))
@@ -329,22 +344,18 @@ def check_ioport(case):
                 fail = ('ioport-close-incomplete', 'the IOPort is closed but its devices are not both released exactly once (%r, %r)' % (sti['closes'], sto['closes']))
             if fail is None and delivered + [msgid(m) for m in inp._messages] != sti['taken']:
                 fail = ('ioport-lost-or-reordered', 'taken in %r, handed out %r, queued %r' % (sti['taken'], delivered, [msgid(m) for m in inp._messages]))
+            out += res + [1 if port.closed else 0, 1 if inp.closed else 0, sti['closes'], 1 if outp.closed else 0, sto['closes'], sti['sleeps'], sti['calls'],
+                          len(sto['sent']), len(inp._messages), -9]
+        out += [len(sto['sent'])] + sto['sent'] + [len(inp._messages)] + [msgid(m) for m in inp._messages]
     finally:
         ports.sleep = saved
-    return fail
+    return out, fail, 'ioport'
 
 
 def job(j):
     tag, comp, cases = j
     if tag == 'ioport':
-        rec = {'n': len(cases), 'dis': [], 'fail': [], 'dist': {'ioport': len(cases)}, 'hashes': {hash(tuple(c)) for c in cases}, 'ndis': 0, 'nfail': 0}
-        for c in cases:
-            f = check_ioport(c)
-            if f is not None:
-                rec['nfail'] += 1
-                if len(rec['fail']) < 10:
-                    rec['fail'].append((f[0], f[1], {'component': 'ioport', 'case': c}))
-        return tag, rec
+        return tag, core.eval_cases(COMP_IOPORT, cases, impl_ioport)
     if tag == 'server':
         from props import c18
         return tag, core.eval_cases(comp, cases, c18.impl_server)
@@ -450,17 +461,27 @@ def run(out):
         c += [rng.randrange(1, 4)]
         servers.append(c)
     jobs = chunk_jobs(cases, 'port', COMP_PORT) + chunk_jobs(multis, 'multi', COMP_MULTI, 4) + chunk_jobs(servers, 'server', 111, 4)
-    jobs += chunk_jobs([c for c in cases if c[1] == 0][::3], 'ioport', 0, 4)          # the same histories on the IOPort wrapper (against the statement)
+    # the same histories on the IOPort wrapper (input device = the script, output device = autoreset and faults), with the wrapped ports
+    # also closed directly now and then
+    iocases = []
+    for c in [c for c in cases if c[1] == 0][::3]:
+        if rng.random() < 0.3:
+            c = c + rng.choice([[9], [10], [9, 5], [10, 0, 3], [9, 4, -1], [10, 8], [9, 1, 1], [10, 6, 4, 2]])
+        elif rng.random() < 0.15:
+            nf, ns_at = c[3], 4 + c[3]
+            scr, ops_ = decode_actions(c[ns_at], c[ns_at + 1:])
+            c = c[:len(c) - len(ops_)] + rng.choice([[9], [10], [10, 9]]) + ops_
+        iocases.append(c)
+    jobs += chunk_jobs(iocases, 'ioport', COMP_IOPORT, 4)
     for tag, rec in core.pmap(job, jobs):
         core.merge_into(out, rec, tag)
     out.rule = ('device doubles (BaseIOPort and EchoPort subclasses recording _open/_close/_send, fed by a script of _receive actions: message, nothing, push into the queue, '
                 'device closes itself, push then close); ALL operation sequences of length <= 2 and a sample of length 3 over send/receive(block)/receive(non-block)/poll/'
                 'iter_pending/iterate all/iterate 1/close/with/del x ALL scripts of length <= 2 over 6 actions, plus random sequences (up to %d operations), autoreset and EchoPort '
-                'variants; sleep() is replaced by a counter with a hang guard (%d sleeps = never returns); MultiPort over 0-3 EchoPorts. Result of every operation, closed flag, device '
+                'variants; the same histories on the IOPort wrapper over two device doubles (wrapped ports also closed directly), against IOPortM.v; sleep() is replaced by a counter with a hang guard (%d sleeps = never returns); MultiPort over 0-3 EchoPorts. Result of every operation, closed flag, device '
                 'release count, sleep and _receive call counts compared with the model after every step. Non-trivial: every case; distinct by content.' % (25 if out.tier == 'thorough' else 9, FUEL))
     out.sample({'component': 'port', 'case': cases[5000]})
     out.sample({'component': 'multi', 'case': multis[0]})
     core.kernel_crosscheck(out, [(COMP_PORT, c) for c in rng.sample(cases, 150)] + [(COMP_MULTI, c) for c in multis[:50]], 'C11')
     out.assumptions += ['the wall-clock behaviour of time.sleep and garbage-collector-driven __del__ are not modelled (sleep is a counter, __del__ is called explicitly)',
-                        'an input port closed behind an IOPort wrapper (instead of closing the wrapper) is outside the model',
-                        'MultiPort polls its sub-ports in list order here (random.shuffle is replaced by the identity)']
+                                                'MultiPort polls its sub-ports in list order here (random.shuffle is replaced by the identity)']
